@@ -138,13 +138,13 @@ def showPErr : PErr → String
 /-- every request carries the replayable case id as its first argument (ignored here) -/
 def handle (stream : String) (args : List String) : String :=
   match stream, args.drop 1 with
-  | "ans", [cfg, trxs, nextMid, hasLocal, role, remote] =>
+  | "ans", [cfg, trxs, nextMid, role, remote] =>
     match parseCfg cfg, parseTrxs trxs, nextMid.toNat?, parseRole role with
     | some c, some ts, some nm, some r =>
       let rd := if remote = "-" then some none else (parseDesc remote).map some
       match rd with
       | some rd =>
-        match answer c ts nm (hasLocal = "1") r rd with
+        match answer c ts nm r rd with
         | .ok a => showAnswer a
         | .error e => showAErr e
       | none => "bad-remote"
